@@ -64,6 +64,30 @@ theorem chosen_stable (possible configured : List Loc) (parent internal l : Loc)
     selectLocation Gen.selectLoc possible configured l internal = some l := by
   rw [unfold_select] at h ⊢; exact choose_stable h
 
+/-- **an entry of the configured list that does not offer the field changes nothing, wherever it stands**: a blank,
+    a name no service has, a service that does not declare the field — the entries after it keep their rank -/
+theorem entries_that_do_not_offer_the_field_are_immaterial (possible pre post : List Loc) (x parent internal : Loc)
+    (hx : x ∉ possible) :
+    selectLocation Gen.selectLoc possible (pre ++ x :: post) parent internal =
+    selectLocation Gen.selectLoc possible (pre ++ post) parent internal := by
+  rw [unfold_select, unfold_select]
+  have h1 : (pre ++ x :: post) ++ [parent, internal] = pre ++ x :: (post ++ [parent, internal]) := by simp
+  have h2 : (pre ++ post) ++ [parent, internal] = pre ++ (post ++ [parent, internal]) := by simp
+  rw [h1, h2]; exact choose_skip_irrelevant possible pre _ x hx
+
+/-- **naming a service twice changes nothing**: its first occurrence is its rank and what follows the repetition
+    keeps its order (a list that is "cleaned" of repetitions must therefore keep the order of what remains) -/
+theorem a_repeated_entry_is_immaterial (possible pre mid post : List Loc) (x parent internal : Loc) :
+    selectLocation Gen.selectLoc possible (pre ++ x :: (mid ++ x :: post)) parent internal =
+    selectLocation Gen.selectLoc possible (pre ++ x :: (mid ++ post)) parent internal := by
+  rw [unfold_select, unfold_select]
+  have h1 : (pre ++ x :: (mid ++ x :: post)) ++ [parent, internal] = pre ++ x :: (mid ++ x :: (post ++ [parent, internal])) := by simp
+  have h2 : (pre ++ x :: (mid ++ post)) ++ [parent, internal] = pre ++ x :: (mid ++ (post ++ [parent, internal])) := by simp
+  rw [h1, h2]; exact choose_repeat_irrelevant possible pre mid _ x
+
+example : selectLocation Gen.selectLoc ["B", "C"] ["", "C", "B"] "A" "gw" = some "C" ∧
+          selectLocation Gen.selectLoc ["B", "C"] ["A", "A", "C", "B"] "A" "gw" = some "C" := by decide
+
 /-- non-vacuity -/
 example : selectLocation Gen.selectLoc ["A", "B", "C"] ["Z", "C", "B"] "A" "gw" = some "C" ∧
           selectLocation Gen.selectLoc ["A", "B"] ["Z"] "B" "gw" = some "B" ∧
